@@ -164,6 +164,20 @@ def bv(v, w):
 SIMPLIFY_STEPS = 20000
 
 
+def quick_const(e, depth=4):
+    """e if it is a bit-vector value, its folded value if it is a shallow term over values, else None.
+    (Used where a full simplify of a large symbolic term would be wasted work.)"""
+    if z3.is_bv_value(e):
+        return e
+    if depth == 0 or not z3.is_app(e) or e.num_args() == 0 or e.num_args() > 3:
+        return None
+    for i in range(e.num_args()):
+        if quick_const(e.arg(i), depth - 1) is None:
+            return None
+    r = z3.simplify(e)
+    return r if z3.is_bv_value(r) else None
+
+
 def zsimp(e):
     """z3.simplify with a step budget: on large ite-DAGs the rewriter can take exponential time;
     an incompletely simplified term is still an equivalent term."""
@@ -288,6 +302,12 @@ def _ite_val(g, a, b, memo):
     if isinstance(a, PlaceRef) and isinstance(b, PlaceRef):
         if a.cell == b.cell and a.path == b.path:
             return a
+        # references to two elements of the same fixed-slot Vec: one reference with a symbolic element index
+        if (a.cell == b.cell and len(a.path) == len(b.path) and a.path and a.path[:-1] == b.path[:-1]
+                and a.path[-1][0] in ('vecitem', 'vecsel') and b.path[-1][0] in ('vecitem', 'vecsel')):
+            ia = a.path[-1][1] if a.path[-1][0] == 'vecsel' else bv(a.path[-1][1], 64)
+            ib = b.path[-1][1] if b.path[-1][0] == 'vecsel' else bv(b.path[-1][1], 64)
+            return PlaceRef(a.cell, a.path[:-1] + (('vecsel', zite(g, ia, ib)),))
         raise Unsupported("merge of distinct mutable references %r / %r" % (a, b))
     if isinstance(a, MutSliceRef) and isinstance(b, MutSliceRef):
         if a.cell == b.cell and a.path == b.path:
@@ -642,10 +662,9 @@ class Executor:
         self.solver.add(c)
 
     def oblige(self, kind, guard, msg):
-        g = zsimp(guard) if not (z3.is_true(guard) or z3.is_false(guard)) else guard
-        if z3.is_false(g):
+        if z3.is_false(guard):
             return
-        self.obligations.append((kind, g, msg))
+        self.obligations.append((kind, guard, msg))
 
     def feasible(self, guard):
         if z3.is_false(guard):
@@ -755,7 +774,7 @@ class Executor:
 
     def _fresh_struct(self, sdef, targs, name, depth, expand):
         if True:
-            return Agg([self.fresh_value(subst(ft, targs), '%s.%s' % (name, fname or i), depth, None, expand)
+            return Agg([self.fresh_value(self.defs.expand_alias(subst(ft, targs), sdef.module), '%s.%s' % (name, fname or i), depth, None, expand)
                         for i, (fname, ft) in enumerate(sdef.fields)], sdef.name)
         return Opaque('%s:%s' % (name, ty))
 
@@ -840,6 +859,17 @@ class Executor:
             if isinstance(base, Model) and base.kind == 'vec':
                 return base.f['items'].fields[step[1]]
             raise Unsupported("vecitem step into %s" % type(base).__name__)
+        if k == 'vecsel':
+            # element at a symbolic index of a fixed-slot Vec
+            if isinstance(base, Model) and base.kind == 'vec':
+                present = [(n, x) for n, x in enumerate(base.f['items'].fields) if x is not None]
+                if not present:
+                    raise PathAbort('index', 'element of an empty Vec model')
+                acc = present[-1][1]
+                for n, x in reversed(present[:-1]):
+                    acc = ite_val(step[1] == bv(n, 64), x, acc)
+                return acc
+            raise Unsupported("vecsel step into %s" % type(base).__name__)
         raise Unsupported("projection step %r" % (step,))
 
     def project(self, st, base, p, fn):
@@ -985,6 +1015,16 @@ class Executor:
                 f['items'] = Agg(items, 'vecitems')
                 return Model('vec', **f)
             raise Unsupported("vecitem update of %s" % type(base).__name__)
+        if k == 'vecsel':
+            if isinstance(base, Model) and base.kind == 'vec':
+                items = list(base.f['items'].fields)
+                for n, x in enumerate(items):
+                    if x is not None:
+                        items[n] = ite_val(step[1] == bv(n, 64), self.update(st, x, rest, val), x)
+                f = dict(base.f)
+                f['items'] = Agg(items, 'vecitems')
+                return Model('vec', **f)
+            raise Unsupported("vecsel update of %s" % type(base).__name__)
         if k == 'idx':
             if isinstance(base, Agg):
                 i = zsimp(step[1])
@@ -1011,8 +1051,8 @@ class Executor:
                 if isinstance(val, Agg):
                     # (usize, bool) result of checked arithmetic: the cursor lives in field 0 for a moment
                     r = val.fields[0]
-                    r2 = zsimp(r) if is_z3(r) else r
-                    if is_z3(r2) and z3.is_bv_value(r2):
+                    r2 = quick_const(r) if is_z3(r) else r
+                    if r2 is not None and is_z3(r2) and z3.is_bv_value(r2):
                         st.mem[cell] = Agg((r2,) + tuple(val.fields[1:]), val.tag)
                         st.ckey[cell] = r2.as_long()
                     else:
@@ -1021,8 +1061,8 @@ class Executor:
                 if is_z3(val) and z3.is_bv_value(val):
                     st.ckey[cell] = val.as_long()
                 else:
-                    v2 = zsimp(val) if is_z3(val) else val
-                    if is_z3(v2) and z3.is_bv_value(v2):
+                    v2 = quick_const(val) if is_z3(val) else val
+                    if v2 is not None and is_z3(v2) and z3.is_bv_value(v2):
                         st.mem[cell] = v2
                         st.ckey[cell] = v2.as_long()
                     else:
@@ -1079,7 +1119,7 @@ class Executor:
         if t.startswith("b'"):
             return bv(_unescape_bytes(t[2:-1])[0], 8)
         # named constants and promoteds present in the dump
-        key = re.sub(r'::<[^<>]*(?:<[^<>]*>[^<>]*)*>', '', t)
+        key = _strip_turbofish(t)
         for cand0 in (t, key):
             segs = cand0.split('::') if '<' not in cand0 else [cand0]
             for k in range(len(segs)):
@@ -1100,6 +1140,13 @@ class Executor:
             if len(cands) == 1:
                 return self.eval_const_body(cands[0])
             raise Unsupported("promoted constant %r: %d candidates" % (t, len(cands)))
+        last = t.rsplit('::', 1)[-1]
+        if re.fullmatch(r'[a-z_][a-z0-9_]*', last) and '(' not in t and '{' not in t:
+            try:
+                if self.resolve_callee(t) is not None:
+                    return FnItem(t)         # a function of the dump used as a value
+            except Exception:
+                pass
         # unit-like ADT constants:  Path::Variant  /  Path::<T>::Variant(Unit)
         try:
             from mirparse import parse_rvalue
@@ -1629,7 +1676,17 @@ class Executor:
         if k == 'resume':
             return []
         if k == 'drop':
-            return [(t[2], guard, st)] if t[2] is not None else []
+            if t[2] is None:
+                return []
+            ty = self.type_of_place(fn, t[1]) if t[1][0] == 'local' else None
+            target = self.drop_impl(ty) if ty else None
+            if target is not None:
+                c, path = self.resolve(st, frame, fn, t[1])
+                if st.mem.get(c) is None:
+                    return [(t[2], guard, st)]        # moved-out or never initialised on this path
+                outs = self.call_function_multi(target, [PlaceRef(c, path)], guard, st)
+                return [(t[2], g2, st2) for g2, _rv, st2 in outs if not z3.is_false(g2)]
+            return [(t[2], guard, st)]
         if k == 'assert':
             c = self.eval_operand(st, frame, fn, t[1])
             ok = c if t[2] else znot(c)
@@ -1729,6 +1786,19 @@ class Executor:
             raise Unsupported("call to %s (from %s): no model and not in the dump" % (callee[:140], fn.name))
         return self.call_function_multi(target, argv, guard, st)
 
+    def drop_impl(self, ty):
+        """The user-written `Drop::drop` of type ty in the dump, if any (std types drop as no-ops in the models)."""
+        cache = getattr(self, '_drop_cache', None)
+        if cache is None:
+            cache = self._drop_cache = {}
+        base = strip_paths(base_name(ty))
+        if base not in cache:
+            self._build_impl_index()
+            hits = [e for e in self.impl_index if e['trait'] == 'Drop' and e['method'] == 'drop'
+                    and re.sub(r'<.*$', '', e['self']).strip() == base]
+            cache[base] = self.dump.get(hits[0]['name'], hits[0]['which']) if len(hits) == 1 else None
+        return cache[base]
+
     def add_model(self, pattern, handler, label=None):
         self.models.append((re.compile(pattern), handler, label or pattern))
 
@@ -1771,6 +1841,54 @@ class Executor:
                       or ('/' + mod + '.rs') in e['name']]
                 if h2:
                     hits = h2
+            if len(hits) > 1:
+                # several types of this name: use the module path of the self type as written at the call site
+                selfpath = re.sub(r'<.*$', '', m.group(1).lstrip('&').replace('mut ', '').strip())
+                if '::' in selfpath:
+                    mod = selfpath.rsplit('::', 1)[0]
+                    h2 = [e for e in hits if e['name'].startswith(mod + '::') or ('::' + mod + '::') in e['name']
+                          or mod.endswith(e['name'].split('::<impl')[0])]
+                    if h2:
+                        hits = h2
+            if len(hits) > 1:
+                # same type name in two modules (TokenId): compare the paths as written in the impl header with the call:
+                # an unqualified name in the header means "the type of the impl's own module"
+                def qual(raw, e):
+                    raw = re.sub(r"<.*$", '', raw.replace("&'a ", '&').lstrip('&').strip())
+                    if '::' in raw:
+                        return raw
+                    return e['name'].split('::<impl')[0] + '::' + raw
+                call_self = re.sub(r'<.*$', '', m.group(1).lstrip('&').strip())
+                targ = re.search(r' as [^<>]*<(.*)>>::', c)
+                call_arg = re.sub(r'<.*$', '', targ.group(1).lstrip('&').strip()) if targ else None
+
+                def score(e):
+                    sc = 0
+                    qs = qual(e['self_raw'], e)
+                    if qs.endswith(call_self) or call_self.endswith(qs):
+                        sc += 2
+                    if call_arg and e.get('trait_raw'):
+                        ta = re.search(r'<(.*)>$', e['trait_raw'])
+                        if ta:
+                            qa = qual(ta.group(1), e)
+                            if qa.endswith(call_arg) or call_arg.endswith(qa):
+                                sc += 1
+                    return sc
+                best = sorted(hits, key=score, reverse=True)
+                if score(best[0]) > score(best[1]):
+                    hits = [best[0]]
+            if len(hits) == 1:
+                return dump.get(hits[0]['name'], hits[0]['which'])
+            return None
+        # inherent method of a type defined elsewhere:  module::<impl Type>::method
+        mi = re.match(r'^(.*?)::<impl ([^<>]*(?:<.*>)?)>::([A-Za-z_][A-Za-z0-9_]*)(?:::<.*>)?$', callee)
+        if mi:
+            ty, meth = strip_paths(mi.group(2)), mi.group(3)
+            hits = [e for e in self.impl_index if e['method'] == meth and e['trait'] is None and _type_match(e['self'], ty)]
+            h2 = [e for e in hits if e['name'].startswith(mi.group(1) + '::')]
+            hits = h2 or hits
+            if len(hits) > 1 and len({e['name'] for e in hits}) == 1:
+                hits = hits[:1]
             if len(hits) == 1:
                 return dump.get(hits[0]['name'], hits[0]['which'])
             return None
@@ -1780,6 +1898,12 @@ class Executor:
             meth, ty = segs[-1], strip_paths(segs[-2])
             hits = [e for e in self.impl_index if e['method'] == meth and e['trait'] is None
                     and _type_match(e['self'], ty)]
+            if not hits:
+                # inherent methods generated by a derive macro (strum::FromRepr, ...) carry the macro name as "trait"
+                hits = [e for e in self.impl_index if e['method'] == meth and _type_match(e['self'], ty)
+                        and e['trait'] not in (None, 'Clone', 'PartialEq', 'Debug', 'Default', 'Eq', 'Ord', 'PartialOrd', 'Hash')]
+            if len(hits) > 1 and len({e['name'] for e in hits}) == 1:
+                hits = hits[:1]          # the same const fn printed twice (runtime MIR and MIR for CTFE)
             if len(hits) == 1:
                 return dump.get(hits[0]['name'], hits[0]['which'])
             if len(hits) > 1:
@@ -1810,6 +1934,7 @@ class Executor:
             if lines is None:
                 continue
             trait, selfty = None, None
+            self_raw, trait_raw = None, None
             if l1 == l2:
                 span = lines[l1 - 1].expandtabs(4)[c1 - 1:c2 - 1] if False else _span_text(lines[l1 - 1], c1, c2)
             else:
@@ -1829,15 +1954,20 @@ class Executor:
                     continue
                 rest = mm.group(2)
                 k = find_top(rest, ' for ')
+                trait_raw = None
                 if k >= 0:
+                    trait_raw = rest[:k].strip()
                     trait = strip_paths(re.sub(r'<.*$', '', rest[:k].strip()))
                     selfty = rest[k + 5:].strip()
                 else:
                     selfty = rest.strip()
+                self_raw = re.sub(r'\s+where.*$', '', selfty).strip()
                 selfty = strip_paths(re.sub(r'\s+where.*$', '', selfty))
             for which in range(len(spans)):
                 self.impl_index.append({'name': name, 'which': which, 'method': meth, 'trait': trait,
-                                        'self': selfty or '?'})
+                                        'self': selfty or '?',
+                                        'self_raw': locals().get('self_raw') or (selfty or '?'),
+                                        'trait_raw': locals().get('trait_raw')})
 
 
 def _val_key(v):
